@@ -233,9 +233,17 @@ def main(check_cls):
                 next_idx += 1
             if not pending:
                 break
-            r = pending.popleft()
-            idx, seed, spec, res = r.get(timeout=3600)
-            results[idx] = (seed, spec, res)
+            got = False
+            for _ in range(len(pending)):
+                r = pending.popleft()
+                if r.ready():
+                    idx, seed, spec, res = r.get(timeout=60)
+                    results[idx] = (seed, spec, res)
+                    got = True
+                else:
+                    pending.append(r)
+            if not got:
+                time.sleep(0.005)
     finally:
         pool.terminate()
         pool.join()
